@@ -590,6 +590,27 @@ void pos_range_whole_entry()
       if (!runaway && static_cast<unsigned long long>(r.size()) != got.size())
         vf::violation(key + "/size", "mismatch",
                       what + ".size() got=" + std::to_string(static_cast<unsigned long long>(r.size())) + " visited=" + std::to_string(got.size()));
+    // the iterators of a range are positions in its sequence: two of them are equal exactly when they were advanced
+    // equally far (a saved iterator as a loop sentinel, std::distance between two of them) - not only against end()
+    if (!runaway && want.size() <= 40)
+    {
+      std::vector<decltype(r.begin())> its;
+      for (auto it = r.begin(); it != r.end() && its.size() <= want.size(); ++it)
+        its.push_back(it);
+      its.push_back(r.end());
+      bool reported = false;
+      for (std::size_t i = 0; i < its.size() && !reported; ++i)
+        for (std::size_t j = 0; j < its.size() && !reported; ++j)
+        {
+          VF_COUNT("range/iterator-comparisons");
+          if ((its[i] == its[j]) != (i == j) || (its[i] != its[j]) == (i == j))
+          {
+            vf::violation(key + "/iterator-equality", "mismatch",
+                          what + ": the iterators after " + std::to_string(i) + " and after " + std::to_string(j) + " steps compare " + ((its[i] == its[j]) ? "equal" : "unequal"));
+            reported = true;
+          }
+        }
+    }
   }
 }
 
